@@ -277,6 +277,35 @@ theorem C19_queued_jobs_never_run {cfg : Cfg} {s s' : State} (h : Reach cfg s)
   have h3 : s.submitted.count j ≤ 1 := List.nodup_iff_count.mp hi.subNodup j
   omega
 
+/-- **Release before drain loses exactly the queued jobs.** When `Release` has returned, a submitted
+    job that has not been executed is in `JobQueue` (nowhere else), and it will never be executed.
+    This is why a handler must release its pool only after its outstanding invocations have
+    drained (`C19_handlers_release_after_drain_current_tree`). -/
+theorem C19_release_loses_exactly_the_queued_jobs {cfg : Cfg} {s s' : State} (h : Reach cfg s)
+    (hr : s.rel = .returned) (j : Job) (hj : j ∈ s.submitted) (hd : j ∉ s.done)
+    (as : List Action) (hrun : run cfg s as = some s') :
+    j ∈ s.jobQ ∧ j ∈ s'.jobQ ∧ j ∉ s'.done := by
+  have hi := inv_reach h
+  obtain ⟨hdone, _, _, hw⟩ := C19_release_safe h hr
+  have hc := hi.cons j
+  have h1 : 0 < s.submitted.count j := List.count_pos_iff.mpr hj
+  have h2 : s.done.count j = 0 := List.count_eq_zero.mpr hd
+  have h3 : wcount j s.ws = 0 := by rw [← workerJobs_count, hw]; simp
+  simp [hdone, DPc.jobs, h2, h3] at hc
+  have hq : j ∈ s.jobQ := List.count_pos_iff.mp (by omega)
+  exact ⟨hq, C19_queued_jobs_never_run h hr j hq as hrun⟩
+
+/-- hypotheses satisfiable: the witness below — job 2 submitted, not done, `Release` returned -/
+example : ∃ s, Reach ⟨1, 1⟩ s ∧ s.rel = .returned ∧ 2 ∈ s.submitted ∧ 2 ∉ s.done :=
+  ⟨_, reach_run [.wReg 0, .subCall 1, .subSend 1, .dTake, .dPick, .dGive, .start 0 1,
+       .subCall 2, .subSend 2, .subRet 2, .relCall, .relSend, .fin 0 1, .wReg 0,
+       .sTake, .sSend, .sAck, .dAck, .relRet] Reach.init rfl, by decide⟩
+
+/-- In the current tree both handlers release their pool only after the wait for their outstanding
+    invocations (statement order, deferred calls last-registered-first), so no submitted handler is
+    in the queue when the stop is taken. Regenerated from tcphandler.go / udphandler.go. -/
+theorem C19_handlers_release_after_drain_current_tree : handlersReleaseAfterDrain = true := by decide
+
 /-- such a state is reachable: N = 1, Q = 1; job 1 runs, job 2 is still queued when the dispatcher
     takes the stop request; `Release` returns with job 2 in the queue -/
 theorem C19_witness_queued_job_dropped :
